@@ -407,6 +407,12 @@ def write_nlines(quads, ch, nquads):
 # ------------------------------------------------------------------ Turtle / TriG
 
 PREFIX_NAMES = ["ex", "", "ns1", "a", "x.y", "é", "p-1", "rdf", "xsd", "v_2", "A0", "a.b"]
+# prefix names that spell (or start with) a keyword of the Turtle / TriG / SPARQL / N3 family: every one is a legal
+# PN_PREFIX ([167s] PN_CHARS_BASE ((PN_CHARS | '.')* PN_CHARS)?), and `base:x`, `a:x`, `true:x` … are ordinary prefixed
+# names in every position — in particular as the FIRST token of a statement, where a directive or keyword could stand
+KW_PREFIX_NAMES = ["base", "prefix", "graph", "BASE", "PREFIX", "GRAPH", "Base", "Prefix", "Graph", "bAsE", "a", "true",
+                   "false", "PREFIXx", "graphs", "based", "prefixes", "Graph1", "trueish", "falsehood", "aa", "A", "is",
+                   "has", "of", "this", "bind", "keywords", "forAll", "forSome", "base.x", "prefix-1", "graph_2"]
 BASES = ["http://example.org/base/doc", "http://example.org/base/sub/file.ttl", "http://example.org/other/",
          "http://example.org/base/doc?x=1", "http://other.example/a/b/c", "http://example.org/base/sub/deep/"]
 
@@ -541,10 +547,14 @@ class TurtleWriter:
         ch = self.ch
         if verb and i == RDF_TYPE and ch.flag("a_keyword", 0.7):
             return ("a", "a")
-        if ch.flag("pname", 0.6):
+        if ch.flag("pname", 0.6) or (getattr(self, "kw_names", None) and "pname" not in ch.off and ch.pick(3)):
             cands = [(n, ns) for n, ns in self.prefixes.items() if i.startswith(ns) and pn_expressible(i[len(ns):])]
             if cands:
                 n, ns = ch.choice(cands)
+                kw = [c for c in cands if c[0] in getattr(self, "kw_names", ())]
+                if kw and ch.pick(5):
+                    n, ns = ch.choice(kw)
+                    ch.used["kw_prefix_used"] += 1
                 local = i[len(ns):]
                 ks = [ch.pick(2) if ch.flag("pnlocal_esc", 0.3) else 0 for _ in local]
                 e = pn_local_esc(ks, local)
@@ -794,6 +804,27 @@ class TurtleWriter:
             if ns and ns not in nss and ":" in ns:
                 nss.append(ns)
         ch.shuffle(nss)
+        self.kw_names = set()
+        if ch.flag("kw_prefix", 0.35):
+            # keyword-like prefix names, given first to the namespaces of subjects and graph labels (the tokens
+            # that open a statement / a graph block); in half of the cases ':' is bound as well
+            first = []
+            for q in self.quads:
+                for t in (q[0], q[3]):
+                    if t is not None and t[0] == "I":
+                        first.append(t[1])
+            front = [ns for ns in nss if any(i.startswith(ns) and pn_expressible(i[len(ns):]) for i in first)]
+            nss = front + [ns for ns in nss if ns not in front]
+            kws = list(KW_PREFIX_NAMES)
+            ch.shuffle(kws)
+            kws = kws[: 1 + ch.pick(3)]
+            self.kw_names = set(kws)
+            names = [n for n in names if n != ""] + ([""] if ch.pick(2) else []) + kws   # pop() takes from the end
+            decls = []
+            for k, ns in enumerate(nss):
+                if names and (k < len(kws) or ch.flag("declare_prefix", 0.7)):
+                    decls.append((names.pop(), ns))
+            return decls
         decls = []
         for ns in nss:
             if names and ch.flag("declare_prefix", 0.7):
